@@ -225,3 +225,40 @@ pub fn o_transparent(sc: &Scenario, reference: &RunResult, r: &RunResult) -> Vec
     }
     out
 }
+
+/// O-count: every user frame is a counted call or a tail iteration of one; every counted call
+/// that was not refused enters (or is stopped by the clock)
+pub fn o_count(sc: &Scenario, r: &RunResult) -> Vec<Finding> {
+    let c = &r.counters;
+    let mut out = vec![];
+    if c.frames + c.rec_trips != c.call_enters + c.tail_iters {
+        out.push((
+            "count".to_string(),
+            "user frames built outside counted calls".to_string(),
+            format!("{} user frames built, but {} calls entered + {} tail iterations - {} recursion trips", c.frames, c.call_enters, c.tail_iters, c.rec_trips),
+        ));
+    }
+    if sc.limits.ud_call.is_some() && c.call_counts - c.call_refused != c.call_enters + c.timeouts_due {
+        out.push((
+            "count".to_string(),
+            "user calls entered without being counted".to_string(),
+            format!("{} calls counted and admitted, {} entered (+{} stopped by the clock)", c.call_counts - c.call_refused, c.call_enters, c.timeouts_due),
+        ));
+    }
+    for p in &r.problems {
+        if p.starts_with("calls:") {
+            out.push(("count".to_string(), "call counter disagrees with model".to_string(), p.clone()));
+        }
+    }
+    for (i, op) in r.ops.iter().enumerate() {
+        if sc.limits.ud_call.is_some() && op.ud_calls != op.model_calls {
+            out.push((
+                "count".to_string(),
+                "call counter disagrees with model".to_string(),
+                format!("after host op {i}: counter reads {}, {} calls were counted since the last reset", op.ud_calls, op.model_calls),
+            ));
+            break;
+        }
+    }
+    out
+}
